@@ -46,7 +46,8 @@ func (onConflict OnConflict) Build(builder Builder) {
 		onConflict.DoUpdates.Build(builder)
 	}
 
-	if len(onConflict.Where.Exprs) > 0 {
+	// DO NOTHING takes no condition (the condition restricts the update only)
+	if len(onConflict.Where.Exprs) > 0 && !onConflict.DoNothing {
 		builder.WriteString(" WHERE ")
 		onConflict.Where.Build(builder)
 		builder.WriteByte(' ')
